@@ -160,7 +160,7 @@ func verifHarness_plonkVerifyAlgebra() {
 	}
 	verifChallenges = map[string]fr.Element{"gamma": verifNondetFr("gamma"), "beta": verifNondetFr("beta"), "alpha": verifNondetFr("alpha"), "zeta": verifNondetFr("zeta")}
 	verifDerived, verifMEPoints, verifMEScalars, verifFoldDigests, verifBatchDig = nil, nil, nil, nil, nil
-	verifADigest = make([]byte, fr.Bytes)
+	verifADigest = make([]byte, fr.Bytes-8+12*verifChoose(3)) // digest shorter than / as long as... / longer than a field element
 	for i := range verifADigest {
 		verifADigest[i] = verifNondetByte("digest")
 	}
@@ -218,8 +218,19 @@ func verifHarness_plonkVerifyAlgebra() {
 	}
 	if nbCommit == 1 {
 		verifAssert(len(h.inputs) == 1, "one hash per BSB22 commitment")
+		if len(h.inputs) == 1 {
+			want := proof.Bsb22Commitments[0].Marshal()
+			verifAssert(len(h.inputs[0]) == len(want), "the verifier hashes the marshalled BSB22 commitment")
+			for k := 0; k < len(want) && k < len(h.inputs[0]); k++ {
+				verifAssert(h.inputs[0][k] == want[k], "the verifier hashes the marshalled BSB22 commitment")
+			}
+		}
 		var hc fr.Element
-		hc.SetBytes(verifADigest)
+		nb := len(verifADigest)
+		if nb > fr.Bytes {
+			nb = fr.Bytes
+		}
+		hc.SetBytes(verifADigest[:nb]) // the first min(Size, fr.Bytes) bytes of the digest: what the prover's hint maps too (c03_plonk_challenge.go)
 		li := lagrange(nbPublic + cci)
 		t.Mul(&li, &hc)
 		pi.Add(&pi, &t)
